@@ -33,7 +33,7 @@ ANCHOR_FILES = ("_core", "_actions", "_typehints", "_common", "_link_arguments",
 NO_SHRINK = ("parsers/*/opts", "parsers/*/opts/*", "world", "pristine")
 SHRINK_DICTS = ("world/files", "world/env")
 
-FEATURES = ["l", "dd", "hd", "base", "bdef", "model", "fn", "probe", "cfg", "sub", "dcf", "env", "lst"]
+FEATURES = ["l", "dd", "hd", "base", "bdef", "ilink", "model", "fn", "probe", "cfg", "sub", "dcf", "env", "lst"]
 
 
 def parser_spec(feats, eoe):
@@ -57,6 +57,11 @@ def parser_spec(feats, eoe):
         args.append({"k": "arg", "name": "probe", "type": "opt_probe", "default": None})
     if "lst" in feats:
         args.append({"k": "arg", "name": "bases", "type": "list_base", "default": []})
+    if "ilink" in feats:
+        # a link applied at instantiation time: the instantiated `src` object feeds a parameter of the `m2` group
+        args.append({"k": "arg", "name": "src", "type": "base", "default": {"__lazy__": "Sub1", "kw": {"n": 4}}})
+        args.append({"k": "class", "cls": "Model", "name": "m2"})
+        args.append({"k": "link", "src": "src", "dst": "m2.width", "fn": "base_n", "on": "instantiate"})
     if "model" in feats:
         args.append({"k": "class", "cls": "Model", "name": "model"})
         args.append({"k": "link", "src": "a", "dst": "model.width", "fn": "double"})
@@ -89,6 +94,7 @@ ARGV = {
         ["--base=no.such.Class"],
     ],
     "bdef": [["--bdef=Base"], ["--bdef.n=7"], ["--bdef=dsim.simtypes.Sub2", "--bdef.k=1"], ["--bdef.opts.a=3"], ["--bdef=null"]],
+    "ilink": [["--src=Base"], ["--src.n=6"], ["--m2.name=k"], ["--src=Sub1", "--src.child=Base"], ["--m2.width=3"], ["--src=dsim.simtypes.Sub2"]],
     "fn": [["--fn=Sub1"], ["--fn.help=Sub1"], ["--fn.help=Base"], ["--fn.help"], ["--fn=Base", "--fn.tags=[2]"]],
     "probe": [["--probe=p:x"], ["--probe=bad"]],
     "lst": [["--bases+=Sub1"], ["--bases+=Base", "--bases.n=2"], ['--bases=[{"class_path":"Sub1"}]'], ["--bases+=Unrelated"]],
@@ -124,6 +130,7 @@ OBJ = {
     "hd": [{"hd": {"d": {"u": 7}}}, {"hd": {"d": {"w": [2.0]}}}, {"hd": {"k": 3}}],
     "base": [{"base": {"class_path": "dsim.simtypes.Sub1"}}, {"base": {"class_path": "dsim.simtypes.Sub1", "init_args": {"child": {"class_path": "Base"}}}}, {"base": {"class_path": "os.path"}}],
     "bdef": [{"bdef": {"class_path": "dsim.simtypes.Base"}}, {"bdef": {"init_args": {"n": 9}}}, {"bdef": {"class_path": "dsim.simtypes.Sub2", "init_args": {"k": 3}}}, {"bdef": "Base"}],
+    "ilink": [{"src": {"class_path": "dsim.simtypes.Base", "init_args": {"n": 2}}}, {"m2": {"name": "o"}}],
     "probe": [{"probe": "p:y"}, {"probe": 3}],
     "model": [{"model": {"name": "z"}}, {"model": {"base": {"class_path": "Sub2"}}}],
     "sub": [{"fit": {"lr": 0.2}}, {"fit": {"lr": 0.2}, "test": {"name": "n"}}, {"subcommand": "test", "test": {"name": "q"}}],
@@ -245,6 +252,8 @@ BATTERY = [
     {"kind": "defaults"},
     {"kind": "dump", "argv": [], "kw": {}},
     {"kind": "obj", "obj": {"zz": 1}},
+    {"kind": "inst", "argv": []},
+    {"kind": "inst", "argv": ["--a=2"]},
 ]
 
 
